@@ -29,7 +29,7 @@ ANCHORS = ["coxeter.shapes.convex_polyhedron:ConvexPolyhedron.is_inside", "coxet
 REQUIRED_MONITORS = ["ConvexPolyhedron.is_inside", "Polyhedron.is_inside", "Sphere.is_inside", "Ellipsoid.is_inside",
                      "ConvexSpheropolyhedron.is_inside", "batch-vs-single", "oracle-second-opinion:voxel-lookup"]
 REQUIRED_CLASSES = ["Polyhedron:voxel-aligned", "Polyhedron:voxel", "Polyhedron:extrusion", "Polyhedron:perturbed",
-                    "ConvexPolyhedron", "Sphere", "Ellipsoid", "ConvexSpheropolyhedron", "form:(3,)", "batch:2000", "history:aged-object"]
+                    "ConvexPolyhedron", "Sphere", "Ellipsoid", "ConvexSpheropolyhedron", "form:(3,)", "batch:2000", "history:aged-object", "curved:extreme-units"]
 
 _cache = {}
 
@@ -209,6 +209,10 @@ def run_case(i, rng, rec, tier, state):
     elif which == "Sphere":
         (r,), _ = gen.axes_case(rng, 1)
         cen, _ = gen.center_case(rng, r)
+        u = gen.unit_factor(rng)
+        if u != 1.0:
+            r, cen = r * u, cen * u
+            rec.cls("curved:extreme-units")
         s = cs.Sphere(r, cen)
         if aged:
             info["history"] = aging.age(s, rng)
@@ -219,6 +223,10 @@ def run_case(i, rng, rec, tier, state):
     elif which == "Ellipsoid":
         ax, _ = gen.axes_case(rng, 3)
         cen, _ = gen.center_case(rng, max(ax))
+        u = gen.unit_factor(rng)
+        if u != 1.0:
+            ax, cen = [a * u for a in ax], cen * u
+            rec.cls("curved:extreme-units")
         s = cs.Ellipsoid(ax[0], ax[1], ax[2], cen)
         if aged:
             info["history"] = aging.age(s, rng)
